@@ -181,7 +181,7 @@ func effStr(st *State) string {
 func checkC01(p *Prog, r *Report) {
 	r.NotCov = append(r.NotCov,
 		"goroutine scheduling, TCP delivery and backend behaviour (whether an attempt is answered or dropped)",
-		"the residual race in ClientConn.Send where a request stays registered after its write failed",
+		"a client that stays connected but stops reading (the recorded C17 finding): its replies are queued, not delivered",
 		"memory-model visibility (C18's lock discipline)")
 	c01Activation(p, r)
 	c01Local(p, r)
